@@ -277,7 +277,8 @@ impl<'w> Ctx<'w> {
                     parts.push(format!("{} := {}", lean_ident(&fname), v.s));
                 }
                 if parts.len() != fields.len() { return Err("struct literal with missing fields".into()); }
-                Ok(E { s: format!("({{ {} }} : {})", parts.join(", "), name), ty: Ty::Named(name), eff })
+                let lt = self.w.lean_ty(&Ty::Named(name.clone()))?;
+                Ok(E { s: format!("({{ {} }} : {})", parts.join(", "), lt), ty: Ty::Named(name), eff })
             }
             Expr::Try(t) => {
                 // errors travel in the monad: `e?` is just `e`
@@ -460,6 +461,47 @@ impl<'w> Ctx<'w> {
                 let b = self.expr(&c.args[1])?;
                 Ok(E { s: format!("({}, {})", a.s, b.s), ty: Ty::Tuple(vec![a.ty, b.ty]), eff: a.eff || b.eff })
             }
+            "compress" => {
+                // `compress(codec, level, data)?` — external (a parameter of the generated module)
+                if c.args.len() != 3 { return Err("compress arity".into()); }
+                let ct = self.expr(&c.args[0])?;
+                let lvl = self.expr(&c.args[1])?;
+                self.unify(&lvl.ty, &Ty::U(32))?;
+                let d = self.expr(&c.args[2])?;
+                if self.resolve(&d.ty) != Ty::Bytes { return Err("compress of a non-byte slice".into()); }
+                self.used_compress = true;
+                Ok(E { s: format!("(← liftCompress (compress {} {} {}))", paren(&ct.s), paren(&lvl.s), paren(&d.s)), ty: Ty::Res(Box::new(Ty::Bytes)), eff: true })
+            }
+            "decompress" => {
+                // `decompress(codec, reader.take(n), &mut buf)?` — the codec is external (a parameter of the
+                // generated module): the body is what `take(n)` + `read_to_end` deliver, at most n bytes
+                if c.args.len() != 3 { return Err("decompress arity".into()); }
+                let ct = self.expr(&c.args[0])?;
+                let (src_place, n) = match strip_ref(&c.args[1]) {
+                    Expr::MethodCall(mc) if mc.method == "take" => {
+                        let p = self.place_of(&mc.receiver).ok_or("decompress: reader is not a place")?;
+                        let n = self.expr(&mc.args[0])?;
+                        self.unify(&n.ty, &Ty::U(64))?;
+                        (p, n)
+                    }
+                    _ => return Err("decompress: second argument is not `reader.take(n)`".into()),
+                };
+                let dst = self.place_of(&c.args[2]).ok_or("decompress: destination is not a place")?;
+                if self.resolve(&src_place.ty) != Ty::Src || self.resolve(&dst.ty) != Ty::Bytes { return Err("decompress argument types".into()); }
+                let cur = self.place_read(&src_place);
+                let (body, s2) = (self.fresh("body"), self.fresh("s"));
+                self.pre.push(format!("let ({}, {}) := {}.readUpTo {}", body, s2, cur, paren(&n.s)));
+                let w = self.place_write(&src_place, &s2);
+                self.pre.push(w);
+                self.used_decompress = true;
+                let raw = self.fresh("raw");
+                self.pre.push(format!("let {} ← liftDecompress (decompress {} {})", raw, paren(&ct.s), body));
+                // `decompress` appends to the destination buffer
+                let dcur = self.place_read(&dst);
+                let w2 = self.place_write(&dst, &format!("({} ++ {})", dcur, raw));
+                self.pre.push(w2);
+                Ok(E { s: "()".into(), ty: Ty::Res(Box::new(Ty::Unit)), eff: false })
+            }
             "SeekFrom::End" => {
                 let a = self.expr(&c.args[0])?;
                 self.unify(&a.ty, &Ty::I(64))?;
@@ -503,9 +545,20 @@ impl<'w> Ctx<'w> {
                 backs.push(self.place_of(a).ok_or("&mut argument is not a place")?);
             }
         }
+        if sig.uses_w {
+            return Err("call of a function over the abstract writer".into());
+        }
         if sig.uses_step {
             self.used_step = true;
             argv.insert(0, "step".into());
+        }
+        if sig.uses_decompress {
+            self.used_decompress = true;
+            argv.insert(0, "decompress".into());
+        }
+        if sig.uses_compress {
+            self.used_compress = true;
+            argv.insert(0, "compress".into());
         }
         // fully qualified: inside `def T.f` the namespace `T` is open and a field of `T` may carry the callee's name
         let call = format!("Grenad.Gen.{} {}", sig.lean, argv.join(" "));
@@ -528,12 +581,52 @@ impl<'w> Ctx<'w> {
         let pat = if names.len() == 1 { names[0].clone() } else { format!("({})", names.join(", ")) };
         self.pre.push(format!("let {} ← {}", pat, call));
         self.pre.extend(writes);
+        if let Some(wrapper) = &sig.view {
+            // the returned wrapper: its `as_ref()` is a field of the receiver, and dropping it runs `on_drop`
+            let (target, field, meth) = self.w.drop_views.get(wrapper).cloned()
+                .ok_or_else(|| format!("call returning the wrapper `{}`, whose AsRef/Drop impls were not checked", wrapper))?;
+            let (field, on_drop) = (&field, &format!("{}.{}", target, meth));
+            let b = &backs[0];
+            if !b.fields.is_empty() { return Err("wrapper over a field place".into()); }
+            let cur = self.place_read(b);
+            let tn = match &sig.params[0].0 { Ty::Named(n) => n.clone(), _ => return Err("wrapper receiver".into()) };
+            let fty = self.w.structs.get(&tn).and_then(|fs| fs.iter().find(|(f, _)| f == field)).map(|(_, t)| t.clone()).ok_or("exposed field not found")?;
+            let callee = self.w.fns.get(on_drop).map(|f| f.lean.clone()).ok_or_else(|| format!("drop calls `{}`: not a translated function", on_drop))?;
+            self.pending_drops.push((cur.clone(), callee));
+            return Ok(E { s: format!("{}.{}", cur, field), ty: fty, eff: false });
+        }
         Ok(E { s: if sig.ret == Ty::Unit { "()".into() } else { r }, ty: ret_ty, eff: false })
     }
 
     fn method(&mut self, m: &ExprMethodCall) -> R<E> {
         let name = m.method.to_string();
         let args: Vec<&Expr> = m.args.iter().collect();
+        // ---- idioms of src/block.rs, matched on their token text (anything else is not guessed)
+        let txt = m.to_token_stream().to_string().replace(' ', "");
+        // `bytes.try_into().map(u32::from_be_bytes).unwrap()`: a 4-byte slice as a big-endian u32
+        for (suffix, n) in [(".try_into().map(u32::from_be_bytes).unwrap()", 4u32), (".try_into().map(u64::from_be_bytes).unwrap()", 8)] {
+            if let Some(rest) = txt.strip_suffix(suffix) {
+                if let Ok(inner) = syn::parse_str::<Expr>(rest) {
+                    let a = self.expr(&inner)?;
+                    if self.resolve(&a.ty) != Ty::Bytes { return Err("from_be_bytes of a non-byte slice".into()); }
+                    return Ok(E { s: format!("(← beValueN {} {})", n, paren(&a.s)), ty: Ty::U(n * 8), eff: true });
+                }
+            }
+        }
+        // `bytes.chunks_exact(N).filter_map(|s| TryInto::try_into(s).ok()).map(u64::from_be_bytes)`
+        if let Some(pos) = txt.find(".chunks_exact(") {
+            if txt.ends_with(").filter_map(|s|TryInto::try_into(s).ok()).map(u64::from_be_bytes)") {
+                let recv_txt = &txt[..pos];
+                let arg_txt = &txt[pos + ".chunks_exact(".len()..txt.len() - ").filter_map(|s|TryInto::try_into(s).ok()).map(u64::from_be_bytes)".len()];
+                if let (Ok(r), Ok(n)) = (syn::parse_str::<Expr>(recv_txt), syn::parse_str::<Expr>(arg_txt)) {
+                    let r = self.expr(&r)?;
+                    let n = self.expr(&n)?;
+                    if self.resolve(&r.ty) != Ty::Bytes { return Err("chunks_exact of a non-byte slice".into()); }
+                    if n.s != "8" { return Err("chunks_exact(n) with n != size_of::<u64>()".into()); }
+                    return Ok(E { s: format!("(chunksBE 8 {})", paren(&r.s)), ty: Ty::List(Box::new(Ty::U(64))), eff: r.eff });
+                }
+            }
+        }
         // user methods on self / translated structs
         if let Some(p) = self.place_of(&m.receiver) {
             if let Ty::Named(sn) = self.resolve(&p.ty) {
@@ -587,6 +680,13 @@ impl<'w> Ctx<'w> {
                     self.pre.push(w);
                     return Ok(e("()", Ty::Unit));
                 }
+                (Ty::List(t), "extend") => {
+                    let a = self.expr(args[0])?;
+                    if self.resolve(&a.ty) != Ty::List(t.clone()) { return Err("extend with a different element type".into()); }
+                    let w = self.place_write(&p, &format!("({} ++ {})", cur, a.s));
+                    self.pre.push(w);
+                    return Ok(e("()", Ty::Unit));
+                }
                 (Ty::Bytes, "extend") => {
                     // the one idiom of block_writer.rs: xs.iter().copied().flat_map(u64::to_be_bytes)
                     let txt = args[0].to_token_stream().to_string().replace(' ', "");
@@ -621,12 +721,36 @@ impl<'w> Ctx<'w> {
                     self.used_step = true;
                     let (c2, r) = (self.fresh("c"), self.fresh("r"));
                     self.pre.push(format!("let ({}, {}) := step {} {}", c2, r, cur, op));
-                    let w = self.place_write(&p, &c2);
-                    self.pre.push(w);
+                    // `current()` through a shared reference reads only: nothing to write back
+                    let root_mut = self.muts.iter().any(|m| *m == lean_ident(&p.root)) || self.local_muts.contains(&p.root);
+                    if !(name == "current" && !root_mut) {
+                        let w = self.place_write(&p, &c2);
+                        self.pre.push(w);
+                    }
                     let inner = Ty::Opt(Box::new(Ty::Tuple(vec![Ty::Bytes, Ty::Bytes])));
                     // `current()` returns the Option itself, the moves a `Result` of it
                     let ty = if name == "current" { inner } else { Ty::Res(Box::new(inner)) };
                     return Ok(E { s: format!("(← liftCur {})", r), ty, eff: true });
+                }
+                (Ty::ExtW, "write") => {
+                    // `inner.write(buf)` on the abstract writer: it may take fewer bytes than offered, or fail
+                    let a = self.expr(args[0])?;
+                    if self.resolve(&a.ty) != Ty::Bytes { return Err("write of a non-byte slice".into()); }
+                    if a.eff { return Err("effectful write argument".into()); }
+                    self.used_wwrite = true;
+                    let (w2, r) = (self.fresh("w"), self.fresh("r"));
+                    self.pre.push(format!("let ({}, {}) := wwrite {} {}", w2, r, cur, paren(&a.s)));
+                    let w = self.place_write(&p, &w2);
+                    self.pre.push(w);
+                    return Ok(E { s: format!("(← liftIo {})", r), ty: Ty::Res(Box::new(Ty::U(64))), eff: true });
+                }
+                (Ty::ExtW, "flush") => {
+                    self.used_wflush = true;
+                    let (w2, r) = (self.fresh("w"), self.fresh("r"));
+                    self.pre.push(format!("let ({}, {}) := wflush {}", w2, r, cur));
+                    let w = self.place_write(&p, &w2);
+                    self.pre.push(w);
+                    return Ok(E { s: format!("(← liftIo {})", r), ty: Ty::Res(Box::new(Ty::Unit)), eff: true });
                 }
                 (Ty::Src, "seek") => {
                     let a = self.expr(args[0])?;
@@ -648,6 +772,13 @@ impl<'w> Ctx<'w> {
                     let w = self.place_write(&p, &s2);
                     self.pre.push(w);
                     return Ok(E { s: format!("(← liftIo {})", r), ty: Ty::Res(Box::new(Ty::U(n * 8))), eff: true });
+                }
+                (Ty::Sink, "write_all") => {
+                    let a = self.expr(args[0])?;
+                    if self.resolve(&a.ty) != Ty::Bytes { return Err("write_all of a non-byte slice".into()); }
+                    let w = self.place_write(&p, &format!("({} ++ {})", cur, a.s));
+                    self.pre.push(w);
+                    return Ok(E { s: "()".into(), ty: Ty::Res(Box::new(Ty::Unit)), eff: a.eff });
                 }
                 (Ty::Sink, "write_u8" | "write_u16" | "write_u32" | "write_u64") => {
                     let n: u32 = name[7..].parse::<u32>().unwrap() / 8;
